@@ -11,6 +11,7 @@ import (
 	"verifharness/internal/canon"
 	"verifharness/internal/gen"
 
+	"github.com/M2MGateway/go-smpp/coding"
 	"github.com/M2MGateway/go-smpp/pdu"
 )
 
@@ -454,6 +455,27 @@ func permute(a []string, f func([]string)) {
 }
 
 func genC11(r *gen.Rng, tier string, emit func(string)) {
+	// Parse on GSM 7-bit user data: the escape septet followed by EVERY second septet, and every septet alone, under the data
+	// codings that resolve to the GSM 7-bit codec (a decoder table lookup must not index past its table)
+	for _, dc := range []byte{0x00, 0xF1, 0xD0} {
+		for sq := 0; sq < 128; sq++ {
+			for _, septets := range [][]int{{0x1B, sq}, {sq}, {0x41, 0x1B, sq, 0x42}} {
+				msg := make([]byte, (7*len(septets)+7)/8)
+				for i, v := range septets {
+					for b := 0; b < 7; b++ {
+						if v>>uint(b)&1 == 1 {
+							msg[(7*i+b)/8] |= 1 << uint((7*i+b)%8)
+						}
+					}
+				}
+				p := &pdu.DeliverSM{Header: pdu.Header{Sequence: 1}, Message: pdu.ShortMessage{DataCoding: coding.DataCoding(dc), Message: msg}}
+				var buf bytes.Buffer
+				if _, err := pdu.Marshal(&buf, p); err == nil {
+					emit("accessors " + canon.Hex(buf.Bytes()))
+				}
+			}
+		}
+	}
 	for m := 0; m < 256; m++ {
 		emit(fmt.Sprintf("msgstate %d", m))
 	}
